@@ -168,6 +168,24 @@ def r3_swap(idx, r):
     fl2 = Flow(am.node, ev2).run()
     for e in fl2.normal_exits():
         r.require(e.state.get("base", (0, 0)) == (1, 1) and e.state.get("rekey", (0, 0)) == (1, 1), f"Assembly.moveTo@{e.kind}", am, msg=f"moveTo must call Composite.moveTo and store itself under the new locator in the parent's table: {e.state}")
+    # ... and give up the key of the place it left: the previous locator is remembered BEFORE the base call replaces it, and removed from the
+    # parent's table when (and only when) it still maps to this assembly (in a swap the other assembly already took it over)
+    base = next((c for c in iter_calls(am.node) if _call(c, "composites.Composite.moveTo") or _call(c, "super().moveTo")), None)
+    olds = [s_ for s_ in iter_stores(am.node) if isinstance(s_.node, ast.Name) and s_.value is not None and norm(s_.value) == "self.spatialLocator" and base is not None and s_.stmt.lineno < base.lineno]
+    gone = []
+    for o in olds:
+        for n in walk_local(am.node):
+            if isinstance(n, ast.Delete) and any(norm(t) == f"self.parent.childrenByLocator[{o.attr}]" for t in n.targets):
+                gone.append((o, n))
+            if isinstance(n, ast.Call) and norm(n.func) == "self.parent.childrenByLocator.pop" and n.args and norm(n.args[0]) == o.attr:
+                gone.append((o, n))
+    r.require(bool(gone), "Assembly.moveTo:vacated-location-unregistered", am,
+              msg="moveTo stores the assembly under its new locator but never removes the entry of the location it left: after a move to an EMPTY location the old location still "
+                  "answers with the moved assembly and a later add there is refused as 'already filled'")
+    for o, n in gone[:1]:
+        conds = [norm(t) for t, p in path_conditions(am.node, n) if p]
+        r.require(any(" is self" in c and o.attr in c for c in conds) or isinstance(n, ast.Call), "Assembly.moveTo:removes-only-its-own-entry", am, node=n,
+                  msg=f"the vacated key is removed under {conds}: it must be removed only while it still maps to this assembly (during a swap the partner already owns it)")
     cm = idx.method("armi.reactor.composites.Composite", "moveTo")
     st = next((s for s in iter_stores(cm.node) if s.chain == "self.spatialLocator"), None)
     guard = next((n for n in cm.node.body if isinstance(n, ast.If) and always_exits(n.body) and any(isinstance(x, ast.Raise) for x in n.body)), None)
@@ -415,6 +433,26 @@ def r10_positions(idx, r):
                       "explicitly placed assemblies) the next discharge lands in an occupied cell and two assemblies share one location")
 
 
+def r11_guarded_key(idx, r):
+    """Inside the branch that `K in self.childrenByLocator` guards, the table is indexed with that very K: indexing it with another expression
+    (the assembly's own, possibly foreign, locator) turns the intended refusal into a KeyError."""
+    add = idx.method(CORE, "add")
+    n = 0
+    for node in walk_local(add.node):
+        if isinstance(node, ast.If) and isinstance(node.test, (ast.Compare, ast.BoolOp)):
+            for t in ast.walk(node.test):
+                if isinstance(t, ast.Compare) and len(t.ops) == 1 and isinstance(t.ops[0], ast.In) and norm(t.comparators[0]) == "self.childrenByLocator":
+                    key = norm(t.left)
+                    for x in [x for st_ in node.body for x in ast.walk(st_)]:
+                        if isinstance(x, ast.Subscript) and norm(x.value) == "self.childrenByLocator" and isinstance(x.ctx, ast.Load):
+                            n += 1
+                            r.require(norm(x.slice) == key, f"Core.add:guarded-by-{key}:indexed-with-the-tested-key", add, node=x,
+                                      msg=f"the branch is entered because `{key} in self.childrenByLocator`, but the table is then read at `{norm(x.slice)}`: when the assembly's own locator "
+                                          "differs from the requested one the refusal surfaces as KeyError instead of the documented ValueError")
+    if n < 1:
+        raise AnchorMissing("Core.add: refusal branch reading self.childrenByLocator[...]")
+
+
 def run(idx, chk):
     chk.explanation = (
         "C14: who may write childrenByLocator/assembliesByName/blocksByName; Core.add/removeAssembly touching every table exactly once on "
@@ -437,3 +475,5 @@ def run(idx, chk):
                  necessary="'lookups by assembly and block name find every assembly and block in the core or the pool under its current name'")
     chk.run_rule("R14.10", "insert keeps the given index; both name tables cover core, BOL and pool; the pool tests a location against the occupied ones", lambda r: r10_positions(idx, r), floor=3,
                  necessary="every location holds at most one assembly; names and blocks of pooled assemblies stay findable; block order is preserved by swaps")
+    chk.run_rule("R14.11", "a lookup inside a membership-guarded branch uses the tested key", lambda r: r11_guarded_key(idx, r), floor=1,
+                 necessary="an add to an occupied location is refused with the documented error")
